@@ -7,7 +7,7 @@
 
 namespace raptor {
 
-void jacobi(CSRMatrix* A, Vector& b, Vector& x, Vector& tmp, int num_sweeps, 
+void jacobi(CSRMatrix* A, Vector& x, Vector& b, Vector& tmp, int num_sweeps, 
         double omega)
 {
     int row_start, row_end;
@@ -42,7 +42,7 @@ void jacobi(CSRMatrix* A, Vector& b, Vector& x, Vector& tmp, int num_sweeps,
     }
 }
 
-void sor(CSRMatrix* A, Vector& b, Vector& x, Vector& tmp, int num_sweeps,
+void sor(CSRMatrix* A, Vector& x, Vector& b, Vector& tmp, int num_sweeps,
         double omega)
 {
     int row_start, row_end;
@@ -69,7 +69,7 @@ void sor(CSRMatrix* A, Vector& b, Vector& x, Vector& tmp, int num_sweeps,
     }
 }
 
-void ssor(CSRMatrix* A, Vector& b, Vector& x, Vector& tmp, int num_sweeps,
+void ssor(CSRMatrix* A, Vector& x, Vector& b, Vector& tmp, int num_sweeps,
         double omega)
 {
     int row_start, row_end;
